@@ -6,10 +6,11 @@ import re
 
 from typing import Any
 
-from ..charclass import EITHER, FACTS, S, bad_identifier_chars, members
-from ..astutil import Locals, anon, call_name, cfg_of, local_names, norm, short, stmt_of
+from ..charclass import EITHER, FACTS, CharInterp, S, bad_identifier_chars, members
+from ..astutil import Locals, anon, call_name, cfg_of, constructs_error, local_names, norm, region, short, stmt_of
 from ..cfg import walk_own
-from ..core import PKG, Report
+from ..core import PKG, AnalysisError, Report
+from ..pyindex import dotted
 from ..domain import CONST, ENUM, IDENT, NUM, WORD
 from ..jinja_interp import expr_text
 from .registries import check_module_files, check_registries, parameter_passes
@@ -27,15 +28,21 @@ LEVEL = ("(a) validity: abstract interpretation of the naming pipeline over sets
          "resolution followed by re-checks (CFG dominance / path rules); (d) the constructor mode that R09.1 shows to let delimiters "
          "through is traced over the call graph (forwarding parameters, defaults, locals) to every site that can select it: each is "
          "preceded on every path by a collision test of derived names; (e) the operation's parameter pass reads every parameter "
-         "collection of the operation (fields by declared element type, and those whose names the templates print).")
+         "collection of the operation (fields by declared element type, and those whose names the templates print); (f) where those "
+         "collections are filled, one element per item of an iteration, a decision that looks at the elements already collected and can "
+         "end the iteration without adding the item reads everything that determines the item's place and name.")
 
 
 def run(rep: Report, ctx: Any) -> str:
     ix = ctx.py
-    ch = ctx.chars
+    # the shared engine reads a regular-expression call as (pattern, [replacement,] string): calls that say more (flags=, count=,
+    # maxsplit=) are first brought into that form, or refused - never read as if the extra arguments were not there
+    ch = FlagAwareInterp(ix, ctx.tables)
     t = ctx.tables
     rep.rule("R09.1", "for all input strings: each return path of the name constructors and each enum member name is a "
-                      "valid, non-keyword identifier (first in ID_Start, rest in ID_Continue, non-empty)")
+                      "valid, non-keyword identifier (first in ID_Start, rest in ID_Continue, non-empty).  The three conditions are "
+                      "separate obligations per path (<path> character classes, <path>::non-empty, <path>::not-reserved): a known "
+                      "defect of one kind never stands for a defect of another kind on the same path")
     rep.rule("R09.2", "fields annotated PythonIdentifier / ClassName only ever receive results of those constructors; every template "
                       "hole that prints such a field carries constructor results only; every identifier-required position of the "
                       "generated code (assignment / annotation target, keyword, parameter, attribute, def / class / import / for name) "
@@ -64,13 +71,8 @@ def run(rep: Report, ctx: Any) -> str:
                 if mode is not None:
                     leak[mode] = leak.get(mode, 0) | (0 if validated else p.result.any & ~t.ID_CONT)
                 key = f"{tag}::{'validated' if validated else 'prefixed'}-path"
-                bad = bad_identifier_chars(t, p.result)
-                if not p.result.nokw:
-                    bad["may_be_keyword_or_reserved"] = True
-                rep.check(not bad, "R09.1", key,
-                          f"result may not be a valid identifier on path [{p.desc}]: {bad}",
-                          where=f"{f.module.rel}:{p.line}", lhs=p.result.describe(t), rhs="first in ID_Start, rest in ID_Continue, "
-                          "non-empty, not reserved", reasons=bad, path=p.desc)
+                validity_obligations(rep, t, key, p.result, f"result of {cls_name}.__new__", f"{f.module.rel}:{p.line}", p.desc,
+                                     reserved=not p.result.nokw)
     rep.floor("constructor_return_paths", n_paths, 3)
 
     # enum member names
@@ -91,9 +93,7 @@ def run(rep: Report, ctx: Any) -> str:
         name = f"EnumProperty.values_from_list::member-name[{kind}" + (f",{sub}" if kind == "str" else "") + "]"
         seen[name] = seen.get(name, 0) + 1
         key = name + (f"#{seen[name]}" if kind == "int" else "")
-        bad = bad_identifier_chars(t, k)
-        rep.check(not bad, "R09.1", key, f"enum member name may not be a valid identifier on path [{cond}]: {bad}",
-                  where=f"{f.module.rel}:{line}", lhs=k.describe(t), rhs="valid identifier", reasons=bad, path=cond)
+        validity_obligations(rep, t, key, k, "enum member name", f"{f.module.rel}:{line}", cond)
 
     # helper-derived names: check_<snake_case(ClassName)> and module-level <SNAKE>_VALUES
     sc = ix.func("utils.snake_case")
@@ -172,8 +172,124 @@ def run(rep: Report, ctx: Any) -> str:
     check_module_files(rep, ctx, "R09.3")
     rep.not_decided.append("that disambiguation always succeeds when it could; only that it is attempted or diagnosed")
     check_weak_mode(rep, ctx, "R09.4", ix.func("PythonIdentifier.__new__"), MODE_PARAM, leak)
-    check_pass_sources(rep, ctx, "R09.5")
+    sources = check_pass_sources(rep, ctx, "R09.5")
+    check_no_silent_loss(rep, ctx, "R09.6", sources)
     return LEVEL
+
+
+# ---- R09.1: the conditions of validity, one obligation each ----------------------------------------------------------------------
+def validity_obligations(rep: Report, t: Any, key: str, s: S, what: str, where: str, path: str, reserved: "bool | None" = None) -> None:
+    """A name is valid when its characters are of the right classes, it is not empty, and it is not a reserved word.  Each condition is
+    an obligation of its own (`key` keeps standing for the character classes): a path on which one of them is known to fail is still
+    examined for the others."""
+    bad = bad_identifier_chars(t, s)
+    empty = bool(bad.pop("may_be_empty", False))
+    rep.check(not bad, "R09.1", key, f"{what} may not be a valid identifier on path [{path}]: {bad}", where=where, lhs=s.describe(t),
+              rhs="first in ID_Start, rest in ID_Continue", reasons=bad, path=path)
+    rep.check(not empty, "R09.1", key + "::non-empty", f"{what} may be the empty string on path [{path}]: every character of the input "
+              "can be removed or none is required, and nothing is put in its place", where=where, lhs=s.describe(t), rhs="never empty", path=path)
+    if reserved is not None:
+        rep.check(not reserved, "R09.1", key + "::not-reserved", f"{what} may be a keyword or a reserved word on path [{path}]",
+                  where=where, lhs=s.describe(t), rhs="not a keyword, not in RESERVED_WORDS", path=path)
+
+
+# ---- regular-expression calls with more arguments than the engine reads ----------------------------------------------------------
+_RE_SIGNATURES = {"re.sub": ("pattern", "repl", "string", "count", "flags"), "re.split": ("pattern", "string", "maxsplit", "flags"),
+                  "re.findall": ("pattern", "string", "flags")}  # the calls the engine models, with their full signatures
+_ASCII_CLASSES = {"w": "a-zA-Z0-9_", "d": "0-9", "s": r" \t\n\r\f\v"}
+
+
+def ascii_pattern(pat: str) -> "str | None":
+    """the pattern that means under Unicode matching what `pat` means under re.ASCII: \\w, \\d, \\s written out as their ASCII ranges.
+    None when the pattern uses something whose ASCII meaning cannot be written that way (\\W, \\D, \\S, \\b, \\B, inline flags)."""
+    out: list[str] = []
+    i, in_class = 0, False
+    while i < len(pat):
+        c = pat[i]
+        if c == "\\" and i + 1 < len(pat):
+            e = pat[i + 1]
+            if e in _ASCII_CLASSES:
+                out.append(_ASCII_CLASSES[e] if in_class else f"[{_ASCII_CLASSES[e]}]")
+            elif e in "WDSbB":
+                return None
+            else:
+                out.append(c + e)
+            i += 2
+            continue
+        if c == "[" and not in_class:
+            in_class = True
+            out.append(c)
+            i += 1
+            if pat[i:i + 1] == "^":
+                out.append("^")
+                i += 1
+            if pat[i:i + 1] == "]":  # a leading `]` is a member of the class
+                out.append("\\]")
+                i += 1
+            continue
+        if c == "]" and in_class:
+            in_class = False
+        if c == "(" and pat[i + 1:i + 2] == "?" and pat[i + 2:i + 3] not in (":", "=", "!", "<", "P"):
+            return None
+        out.append(c)
+        i += 1
+    return "".join(out)
+
+
+class FlagAwareInterp(CharInterp):
+    """CharInterp reads `re.sub / re.split / re.findall` as (pattern, [replacement,] string) under Unicode matching.  A call that says
+    more is rewritten into the call of that form that means the same - flags=re.ASCII by writing the ASCII classes into the pattern,
+    flags=0 / re.UNICODE, count=0, maxsplit=0 by leaving them out - and anything else is refused (exit 2): an argument that changes
+    what the call computes is never ignored."""
+
+    def call(self, n: ast.Call, env: dict[str, Any], m: Any) -> Any:
+        fn = dotted(n.func)
+        if fn in _RE_SIGNATURES and self._callee(fn, m) is None:
+            n = self._plain_regex_call(fn, n, m)
+        return super().call(n, env, m)
+
+    def _flag_names(self, e: ast.expr, m: Any, at: str) -> set[str]:
+        if isinstance(e, ast.Constant) and e.value in (0, None):
+            return set()
+        if isinstance(e, ast.BinOp) and isinstance(e.op, ast.BitOr):
+            return self._flag_names(e.left, m, at) | self._flag_names(e.right, m, at)
+        d = dotted(e) or ""
+        if d.startswith("re.") or m.imports.get(d, "").startswith("re."):
+            return {d.rsplit(".", 1)[-1] if d.startswith("re.") else m.imports[d].rsplit(".", 1)[-1]}
+        raise AnalysisError(f"E6: regex flags that cannot be read at {at}: {ast.unparse(e)}")
+
+    def _plain_regex_call(self, fn: str, n: ast.Call, m: Any) -> ast.Call:
+        sig = _RE_SIGNATURES[fn]
+        at = f"{m.rel}:{n.lineno}"
+        if any(isinstance(a, ast.Starred) for a in n.args) or any(k.arg is None for k in n.keywords) or len(n.args) > len(sig):
+            raise AnalysisError(f"E6: regex call whose arguments cannot be told apart at {at}")
+        given: dict[str, ast.expr] = dict(zip(sig, n.args))
+        for k in n.keywords:
+            if k.arg not in sig or k.arg in given:
+                raise AnalysisError(f"E6: regex call with unknown argument `{k.arg}` at {at}")
+            given[k.arg] = k.value
+        plain = [p_ for p_ in sig if p_ in ("pattern", "repl", "string")]
+        if set(given) <= set(plain) and not n.keywords:
+            return n  # already of the form the engine reads
+        for limit in ("count", "maxsplit"):
+            v = given.get(limit)
+            if v is not None and not (isinstance(v, ast.Constant) and v.value == 0):
+                raise AnalysisError(f"E6: regex call limited by {limit}= at {at} (only the unlimited form is modelled)")
+        flags = self._flag_names(given["flags"], m, at) if "flags" in given else set()
+        pattern = given.get("pattern")
+        if flags - {"ASCII", "A", "UNICODE", "U"}:
+            raise AnalysisError(f"E6: regex flags {sorted(flags)} at {at} are not modelled")
+        if flags & {"ASCII", "A"}:
+            pat = self.ix.const_str(m, pattern) if pattern is not None else None
+            if pat is None:
+                raise AnalysisError(f"E6: non-constant regex at {at}")
+            pat2 = ascii_pattern(pat)
+            if pat2 is None:
+                raise AnalysisError(f"E6: the ASCII reading of regex {pat!r} at {at} cannot be written as a Unicode pattern")
+            pattern = ast.copy_location(ast.Constant(value=pat2), n)
+        if pattern is None or any(p_ not in given for p_ in plain):
+            raise AnalysisError(f"E6: regex call without pattern / string at {at}")
+        return ast.copy_location(ast.Call(func=n.func, args=[pattern] + [given[p_] for p_ in plain[1:]], keywords=[]), n)
 
 
 # ---- identifier-required positions of the generated code -------------------------------------------------------------------------
@@ -576,7 +692,21 @@ def fields_read(ix: Any, g: Any, node: ast.AST, fields: set[str], depth: int = 3
     return out, dynamic
 
 
-def check_pass_sources(rep: Report, ctx: Any, rid: str) -> None:
+def conflict_passes(ix: Any, f: Any, name_attrs: set[str]) -> list[tuple[Any, ast.For]]:
+    """the passes of the conflict check f: the outermost loops, in f or in the private helpers it delegates to, whose body asks of the
+    element at hand whether its derived name is already taken (comparison / membership / pop / get keyed by an identifier-typed
+    attribute) or is one of the names the operation reserves for itself - whichever of the two questions is asked there"""
+    out = list(parameter_passes(ix, f))
+    for g in region(ix, f):
+        loops = [n for n in ast.walk(g.node) if isinstance(n, (ast.For, ast.AsyncFor)) and
+                 any(_collision_test(x, name_attrs) for s_ in n.body for x in ast.walk(s_))]
+        for lp in loops:
+            if not any(o is not lp and any(x is lp for x in ast.walk(o)) for o in loops) and not any(lp is l2 for _, l2 in out):
+                out.append((g, lp))
+    return out
+
+
+def check_pass_sources(rep: Report, ctx: Any, rid: str) -> set[str]:
     """One uniqueness scope fed from several collections: the names checked must be all the names emitted.  The operation keeps its
     parameters in one collection per location; the conflict check (reserved names, collisions, re-check) sees them only through what
     its pass iterates over, while the templates print each collection on its own."""
@@ -589,8 +719,9 @@ def check_pass_sources(rep: Report, ctx: Any, rid: str) -> None:
     ep = ix.cls("Endpoint")
     f = ep.methods.get("_check_parameters_for_conflicts")
     rep.require(f, "Endpoint._check_parameters_for_conflicts")
-    passes = parameter_passes(ix, f)
-    rep.require(passes, "parameter loop (with the reserved-name test) in _check_parameters_for_conflicts")
+    name_attrs = fields_typed(ctx, set(it.ident_classes))
+    passes = conflict_passes(ix, f, name_attrs)
+    rep.require(passes, "a loop in _check_parameters_for_conflicts (or a helper of it) that asks of each element whether its derived name is taken")
     prop_quals = {c.qual for c in ix.property_classes()}
     fields = ix.all_fields(ep)
     declared = set()
@@ -603,7 +734,6 @@ def check_pass_sources(rep: Report, ctx: Any, rid: str) -> None:
             if av.types and av.types <= prop_quals:
                 declared.add(name)
                 break
-    name_attrs = fields_typed(ctx, set(it.ident_classes))
     printed = set()
     for e in ji.emissions.values():
         if e.kind == "CODE":
@@ -627,3 +757,264 @@ def check_pass_sources(rep: Report, ctx: Any, rid: str) -> None:
                   "the parameter pass: what it iterates over does not read that field, so their names are neither tested against the "
                   "reserved names nor against the other parameters", where=f"{g0.module.rel}:{loop0.lineno}",
                   lhs=f"fields read by `{norm(loop0.iter)[:60]}`: {sorted(read)}", rhs=f"all of {sorted(sources)}")
+    return sources
+
+
+# ---- R09.6: nothing is lost on the way into the collections the conflict check reads -----------------------------------------------
+_ADDERS = ("append", "add", "extend", "insert", "appendleft")
+
+
+def _stmts_of(fn: ast.AST) -> list[ast.stmt]:
+    """the statements of fn itself (not those of functions / classes defined inside it)"""
+    out: list[ast.stmt] = []
+    stack = list(ast.iter_child_nodes(fn))
+    while stack:
+        n = stack.pop()
+        if isinstance(n, (ast.FunctionDef, ast.AsyncFunctionDef, ast.ClassDef, ast.Lambda)):
+            continue
+        if isinstance(n, ast.stmt):
+            out.append(n)
+        stack.extend(ast.iter_child_nodes(n))
+    return sorted(out, key=lambda s_: (s_.lineno, s_.col_offset))
+
+
+def _closure(lc: Locals, e: ast.AST, stop: set[str], depth: int = 4) -> list[ast.AST]:
+    """e and everything the locals it reads are bound from (transitively); the names in `stop` are not looked behind"""
+    out, seen, frontier = [e], set(stop), [e]
+    for _ in range(depth):
+        nxt: list[ast.AST] = []
+        for x in frontier:
+            for n in ast.walk(x):
+                if isinstance(n, ast.Name) and isinstance(n.ctx, ast.Load) and n.id not in seen:
+                    seen.add(n.id)
+                    nxt += [v for v in lc.values_of(n.id) if not any(v is o for o in out)]
+        out += nxt
+        frontier = nxt
+    return out
+
+
+def _item_names(lc: Locals, loop: "ast.For | ast.AsyncFor") -> set[str]:
+    """the names under which the body of `loop` holds the item of the iteration at hand: the loop variable, and locals bound inside the
+    loop to it or to the result of a call it is handed to (a reference resolved, a copy taken)"""
+    P = {t.id for t in ast.walk(loop.target) if isinstance(t, ast.Name)}
+    inside = {id(n) for s_ in loop.body for n in ast.walk(s_)}
+    grew = True
+    while grew:
+        grew = False
+        for nm, ds in lc.defs.items():
+            if nm in P:
+                continue
+            for kind, st, v in ds:
+                if kind != "assign" or v is None or id(st) not in inside:
+                    continue
+                handed = [v] if isinstance(v, ast.Name) else [*v.args, *[k.value for k in v.keywords]] if isinstance(v, ast.Call) else []
+                if any(isinstance(a, ast.Name) and a.id in P for a in handed):
+                    P.add(nm)
+                    grew = True
+    return P
+
+
+def _item_attrs(ix: Any, g: Any, exprs: list[ast.AST], P: set[str], depth: int = 1) -> tuple[set[str], bool]:
+    """(attributes of the item that the expressions read - also inside a function of the module the item is handed to as a whole -,
+    whether the item is handed as a whole to something that cannot be looked into)"""
+    out: set[str] = set()
+    opaque = False
+    for e in exprs:
+        for n in ast.walk(e):
+            if isinstance(n, ast.Attribute) and isinstance(n.value, ast.Name) and n.value.id in P:
+                out.add(n.attr)
+            elif isinstance(n, ast.Call):
+                whole = [a for a in [*n.args, *[k.value for k in n.keywords]] if isinstance(a, ast.Name) and a.id in P]
+                if not whole:
+                    continue
+                last = call_name(n).rsplit(".", 1)[-1]
+                cands = [h for h in ix.all_functions if h.module is g.module and h.name == last and h is not g]
+                if not cands or depth <= 0:
+                    opaque = True
+                    continue
+                for h in cands:
+                    handed = {p_ for p_ in (a.arg for a in h.params) if any(x is _supplied(n, h, p_) for x in whole)}
+                    r, o = _item_attrs(ix, h, [h.node], handed, depth - 1)
+                    out |= r
+                    opaque = opaque or o or not handed
+    return out, opaque
+
+
+def _denotes_collection(lc: Locals, e: "ast.AST | None", sources: set[str], depth: int = 4) -> bool:
+    """e is one of the fields `sources`, or stands for one: a local bound to it, an entry of a mapping / an element of a display whose
+    values they are, getattr under one of their names"""
+    if e is None or depth < 0:
+        return False
+    if isinstance(e, ast.Attribute):
+        return e.attr in sources
+    if isinstance(e, ast.Name):
+        return any(_denotes_collection(lc, v, sources, depth - 1) for v in lc.values_of(e.id))
+    if isinstance(e, (ast.Subscript, ast.Starred)):
+        return _denotes_collection(lc, e.value, sources, depth)
+    if isinstance(e, ast.Dict):
+        return any(_denotes_collection(lc, v, sources, depth) for v in e.values)
+    if isinstance(e, (ast.Tuple, ast.List, ast.Set)):
+        return any(_denotes_collection(lc, v, sources, depth) for v in e.elts)
+    if isinstance(e, ast.IfExp):
+        return _denotes_collection(lc, e.body, sources, depth) or _denotes_collection(lc, e.orelse, sources, depth)
+    if isinstance(e, ast.Call):
+        if isinstance(e.func, ast.Attribute) and e.func.attr in ("get", "setdefault", "pop", "values", "items"):
+            return _denotes_collection(lc, e.func.value, sources, depth)
+        if call_name(e) == "getattr" and len(e.args) >= 2:
+            pats = _strings_of(e.args[1], lc)
+            return pats is None or any(re.fullmatch(p_, f) for p_ in pats for f in sources)
+    return False
+
+
+class _Put(ast.NodeTransformer):
+    def __init__(self, env: dict[str, ast.AST]) -> None:
+        self.env = env
+
+    def visit_Name(self, n: ast.Name) -> ast.AST:
+        import copy
+
+        return copy.deepcopy(self.env[n.id]) if isinstance(n.ctx, ast.Load) and n.id in self.env else n
+
+
+def _in_terms_of_caller(e: ast.AST, env: dict[str, ast.AST]) -> ast.AST:
+    import copy
+
+    return ast.fix_missing_locations(_Put(env).visit(copy.deepcopy(e)))
+
+
+def _deliveries(ix: Any, g: Any, sources: set[str], sites: list[tuple[ast.Call, Any, Any]]) -> list[tuple[Any, ast.stmt, list[ast.AST], list[ast.AST]]]:
+    """(function, statement, what the receiver is computed from, what the value is computed from) where one element is put into a
+    collection that is (or stands for) one of the fields `sources`: in g itself, or - when g is handed the collection - at each call
+    of g, receiver and value read in the caller's terms"""
+    out: list[tuple[Any, ast.stmt, list[ast.AST], list[ast.AST]]] = []
+    lc = Locals(g.node)
+    params = {a.arg for a in g.params}
+    for st in _stmts_of(g.node):
+        for n in walk_own(st):
+            recv = val = None
+            if isinstance(n, ast.Call) and isinstance(n.func, ast.Attribute) and n.func.attr in _ADDERS and n.args:
+                recv, val = n.func.value, n.args[-1]
+            elif isinstance(n, ast.AugAssign) and isinstance(n.op, ast.Add):
+                recv, val = n.target, n.value
+            if recv is None:
+                continue
+            if _denotes_collection(lc, recv, sources):
+                out.append((g, st, [recv], [val]))
+                continue
+            behind = _closure(lc, recv, params)
+            if not any(isinstance(x, ast.Name) and x.id in params for e in behind for x in ast.walk(e)):
+                continue
+            for c, h, m in sites:
+                if h is None or h is g or m is not g.module or not _is_call_of(c, g, m):
+                    continue
+                env = {p_: e for p_ in params for e in [_supplied(c, g, p_)] if e is not None and e is not _OPAQUE}
+                r_h = [_in_terms_of_caller(e, env) for e in behind]
+                st_h = stmt_of(h.node, c)
+                if st_h is not None and any(_denotes_collection(Locals(h.node), e, sources) for e in r_h):
+                    out.append((h, st_h, r_h, [_in_terms_of_caller(e, env) for e in _closure(lc, val, params)]))
+    return out
+
+
+def _drop_decisions(g: Any, loop: ast.AST, delivered: list[ast.stmt], cfgs: dict[str, Any]) -> list[ast.If]:
+    """the `if` statements inside `loop` that decide whether the item at hand is delivered at all: from one side the next iteration (or
+    the end of the loop) is reached without any delivery, from another a delivery is still reachable within this iteration"""
+    cfg = cfg_of(g, cfgs)
+    out = []
+    for d in ast.walk(loop):
+        if not isinstance(d, ast.If) or d not in cfg.succ:
+            continue
+        drops = keeps = False
+        for s_ in cfg.succ[d]:
+            if s_ is loop:
+                drops = True
+                continue
+            reach = cfg.reachable_from(s_, avoid=lambda n: n is loop)
+            if any(any(x is st for x in reach) for st in delivered):
+                keeps = True
+            elif any(loop in cfg.succ.get(n, ()) or isinstance(n, ast.Break) for n in reach):
+                drops = True
+        if drops and keeps:
+            out.append(d)
+    return sorted(out, key=lambda d: (d.lineno, d.col_offset))
+
+
+def check_no_silent_loss(rep: Report, ctx: Any, rid: str, sources: set[str]) -> None:
+    """The conflict check can only tell apart what reaches it.  The collections it reads are filled item by item; a decision that
+    leaves an item out because of what has been collected before (`already defined`) identifies the item - and an item of these
+    collections is identified by everything that determines where it is put and what it is called, not by a part of that."""
+    ix = ctx.py
+    rep.rule(rid, "where the parameter collections the conflict check reads are filled - one element per item of a loop, in the loop "
+                  "itself or in the generator it iterates -, every decision that (a) can end the iteration without delivering the item "
+                  "and without leaving the function, and (b) depends on the elements collected so far (reads one of the collections, "
+                  "through locals, methods, helpers), also reads every attribute of the item that determines its place and its name: "
+                  "the attributes read by what selects the collection at the delivery, and those handed on as `name=` of what is "
+                  "delivered.  Leaving an item out on a part of its identity merges two items without a diagnostic")
+    ep = ix.cls("Endpoint")
+    cfgs: dict[str, Any] = {}
+    sites = []   # (function, loop, delivering statements, item names)
+    identity: set[str] = set()
+    placed: set[str] = set()
+    called: set[str] = set()
+    n_fill = 0
+    calls = [x for x in call_sites(ix) if x[2] is ep.module]
+    found: dict[str, tuple[Any, list[tuple[ast.stmt, list[ast.AST], list[ast.AST]]]]] = {}
+    for g0 in [h for h in ix.all_functions if h.module is ep.module]:
+        for g, st, recv, val in _deliveries(ix, g0, sources, calls):
+            found.setdefault(g.qual, (g, []))[1].append((st, recv, val))
+    for g, got in found.values():
+        lc = Locals(g.node)
+        loops: dict[int, tuple[Any, list[ast.stmt]]] = {}
+        for st, recv, val in got:
+            inner = None
+            for lp in ast.walk(g.node):
+                if isinstance(lp, (ast.For, ast.AsyncFor)) and any(x is st for b in lp.body for x in ast.walk(b)):
+                    inner = lp  # breadth-first: deeper loops come later
+            if inner is None:
+                continue  # not one element per item of an iteration
+            n_fill += 1
+            P = _item_names(lc, inner)
+            where_to, _ = _item_attrs(ix, g, [x for e in recv for x in _closure(lc, e, P)], P)
+            named: set[str] = set()
+            for e in [x for e in val for x in _closure(lc, e, P)]:
+                for k in ast.walk(e):
+                    if isinstance(k, ast.keyword) and k.arg == "name":
+                        named |= _item_attrs(ix, g, _closure(lc, k.value, P), P)[0]
+            placed |= where_to
+            called |= named
+            identity |= where_to | named
+            loops.setdefault(id(inner), (inner, []))[1].append(st)
+        for inner, sts in loops.values():
+            sites.append((g, inner, sts))
+            # the loop may be fed by a generator of the region that has already decided what to hand on: its yields are deliveries too
+            feeders = {call_name(c).rsplit(".", 1)[-1] for e in _closure(lc, inner.iter, set()) for c in ast.walk(e) if isinstance(c, ast.Call)}
+            for h in ix.all_functions:
+                if h.module is g.module and h.name in feeders and h is not g:
+                    for lp in ast.walk(h.node):
+                        if isinstance(lp, (ast.For, ast.AsyncFor)):
+                            ys = [s_ for s_ in _stmts_of(h.node) if any(x is s_ for b in lp.body for x in ast.walk(b)) and
+                                  any(isinstance(y, (ast.Yield, ast.YieldFrom)) and not constructs_error(y.value) for y in walk_own(s_))]
+                            if ys:
+                                sites.append((h, lp, ys))
+    rep.floor("parameter_fill_sites", n_fill, 1)
+    rep.require(placed and called, "the attributes of the item that select the collection, and those that give the name, at the deliveries "
+                                   "into the parameter collections")
+    n_dec = 0
+    for g, loop, sts in sites:
+        lc = Locals(g.node)
+        P = _item_names(lc, loop)
+        k = 0
+        for d in _drop_decisions(g, loop, sts, cfgs):
+            if not fields_read(ix, g, d.test, sources)[0]:
+                continue  # does not look at what has been collected: not a decision about identity
+            n_dec += 1
+            k += 1
+            read, opaque = _item_attrs(ix, g, _closure(lc, d.test, P), P)
+            missing = set() if opaque else identity - read
+            rep.check(not missing, rid, f"{short(g)}::left-out-as-already-collected#{k}",
+                      f"an item is left out because of what has been collected before, but the decision `{anon(d.test, local_names(g.node))[:90]}` "
+                      f"does not read {sorted(missing)} of the item: items that differ in that attribute are taken for one, and the second "
+                      "never reaches the conflict check (no suffix, no diagnostic)", where=f"{g.module.rel}:{d.lineno}",
+                      lhs=f"attributes of the item read by the decision: {sorted(read)}", rhs=f"all of {sorted(identity)}")
+    rep.floor("already_collected_decisions", n_dec, 1)
+    rep.not_decided.append(f"{rid}: items left out by a filter that is not an `if` statement of the filling loop or of the generator it iterates "
+                           "(a comprehension condition, filter()); that the comparison made with the identity is an equality")
